@@ -587,7 +587,7 @@ impl Gen<'_> {
         let c = self.new_content(len);
         if let Some(i) = i {
             let up = &mut self.sim.ups[i];
-            if up.alive && up.owner == w && n <= 10000 {
+            if up.alive && up.owner == w && (1..=10000).contains(&n) {
                 up.parts.insert(n, len);
             }
         }
